@@ -206,7 +206,7 @@ theorem update_modes_sorted (N : Nat) :
 
 /-- state of the `update` loop after the weights and the first `k` modes -/
 theorem update_invariant [Zero α] (K L : Ktensor α) (hL : L.WF) (hs : K.shape = L.shape)
-    (hR : K.ncomp = L.ncomp) (k : Nat) (hk : k ≤ L.factors.length) :
+    (k : Nat) (hk : k ≤ L.factors.length) :
     ((List.range k).map Int.ofNat).foldlM (updateStep (L.tovec true))
         (L.ncomp, (⟨L.weights, K.factors⟩ : Ktensor α))
       = .ok (L.ncomp * (L.shape.take k).sum + L.ncomp,
@@ -293,7 +293,7 @@ theorem update_tovec [Zero α] (K L : Ktensor α) (hL : L.WF) (hs : K.shape = L.
   have hw : (L.tovec true).take K.ncomp = L.weights := by
     rw [tovec_eq, hR]
     exact List.take_left' rfl
-  rw [hw, hR, hlenF, update_invariant K L hL hs hR L.factors.length (le_refl _)]
+  rw [hw, hR, hlenF, update_invariant K L hL hs L.factors.length (le_refl _)]
   simp only [Except.map]
   rw [List.take_of_length_le (le_refl _), List.drop_eq_nil_of_le (by omega), List.append_nil]
 
